@@ -4407,6 +4407,14 @@ GRsetattr(int32 id, const char *name, int32 attr_nt, int32 count, const void *da
     else /* shouldn't get here, but what the heck... */
         HGOTO_ERROR(DFE_ARGS, FAIL);
 
+    /* an attribute can only be set in a file opened for writing */
+    {
+        filerec_t *file_rec = HAatom_object(hdf_file_id);
+
+        if (BADFREC(file_rec) || !(file_rec->access & DFACC_WRITE))
+            HGOTO_ERROR(DFE_DENIED, FAIL);
+    }
+
     /* Search for an attribute with the same name */
     if ((t = (void **)tbbtfirst(search_tree->root)) != NULL) {
         do {
